@@ -16,7 +16,7 @@ type Profile struct {
 	GenericPct  int // % of interfaces that are generic
 	MinDeps     int
 	MaxDeps     int
-	StdPct      int // % chance that a named-type draw picks a std package
+	StdPct      int  // % chance that a named-type draw picks a std package
 	Conflict    bool // bias dependency paths towards colliding names
 	AdvNames    bool // adversarial parameter name pools
 	MaxIfaces   int
@@ -25,17 +25,18 @@ type Profile struct {
 	MaxResults  int
 	MaxDepth    int
 	EmbedPct    int
-	AliasPct    int // % chance a source import gets an alias
-	DestOther   int // % other-package destination
-	DestTest    int // % <src>_test destination
-	DestSame    int // % explicit -pkg <src name>
-	OutFilePct  int // % of cases using -out instead of stdout
+	AliasPct    int  // % chance a source import gets an alias
+	DestOther   int  // % other-package destination
+	DestTest    int  // % <src>_test destination
+	DestSame    int  // % explicit -pkg <src name>
+	OutFilePct  int  // % of cases using -out instead of stdout
 	ExecSafe    bool // harness X: shapes the reflective driver can build values for
 	InPlaceOnly bool
 	FmtDefault  bool // only the default formatter
 	MultiArgPct int  // % of cases with >1 interface argument
 	UnnamedPct  int  // % of signatures with unnamed parameters
 	GopathPct   int  // % of worlds in GOPATH+vendor layout
+	Evolve      bool // also render a second version of the source (first requested literal interface gains a method)
 	MultiRefPct int  // % bias towards dependency interfaces whose one method type mentions several same-named packages
 }
 
@@ -53,19 +54,19 @@ type G struct {
 	Excl   map[string]int  // how often a draw was steered away, by finding
 	labels map[string]bool
 
-	modPath string
-	deps    []*Pkg
-	src     *Pkg
-	files   []*srcFile
-	ifaces  []*Iface
-	locals  []*Decl // local non-mocked declarations of the source package (Src text)
-	topNames map[string]bool
+	modPath   string
+	deps      []*Pkg
+	src       *Pkg
+	files     []*srcFile
+	ifaces    []*Iface
+	locals    []*Decl // local non-mocked declarations of the source package (Src text)
+	topNames  map[string]bool
 	declNames map[string]bool // names of source-package declarations (subset of topNames)
 	declFold  map[string]bool
-	methSeq int
-	inPlace bool
-	tparams []tparam // in scope while drawing a generic interface
-	n       int
+	methSeq   int
+	inPlace   bool
+	tparams   []tparam // in scope while drawing a generic interface
+	n         int
 }
 
 type tparam struct {
@@ -84,28 +85,27 @@ type srcFile struct {
 
 // Iface is an interface of the source package that may be mocked.
 type Iface struct {
-	Name     string
-	TParams  []TParamDecl
-	Embeds   []*Ty
-	Methods  []Meth
-	AliasOf  *Ty // type Name = T
-	DefOf    *Ty // type Name T (T an instantiated generic interface or named interface)
-	AllMeths map[string]bool
-	file     int
-	Exported bool
+	Name           string
+	TParams        []TParamDecl
+	Embeds         []*Ty
+	Methods        []Meth
+	AliasOf        *Ty // type Name = T
+	DefOf          *Ty // type Name T (T an instantiated generic interface or named interface)
+	AllMeths       map[string]bool
+	file           int
+	Exported       bool
 	HardConstraint bool
 }
 
 type TParamDecl struct {
-	Name string
-	Con  *Ty    // constraint as a type (named or inline interface) — nil means use ConSrc
+	Name   string
+	Con    *Ty    // constraint as a type (named or inline interface) — nil means use ConSrc
 	ConSrc string // literal constraint text when not expressible as Ty ("any", "comparable", "~int | ~string")
-	Cmp  bool
-	Kind string
+	Cmp    bool
+	Kind   string
 }
 
 func (g *G) label(l string) { g.labels[l] = true }
-
 
 // bits draws k fair bits. rapid's integer generators are deliberately biased towards small values
 // and bounds, which would distort every weight in this file; rapid.Bool is a fair coin and shrinks to false.
@@ -182,6 +182,7 @@ func pkgNameForDir(dir string) string {
 
 var typeNamePool = []string{"T", "Type", "Item", "Config", "Client", "ID", "URL", "Reader", "Context", "Node", "Thing", "Foo", "Bar", "Request",
 	"Options", "Key", "Value", "Event", "User", "MyType", "Data"}
+
 // type names whose de-capitalised form is a word the generated code needs (receiver, record variable, keywords,
 // predeclared types): an unnamed parameter of such a type must not be named after it
 var reservedStemTypes = []string{"Mock", "CallInfo", "String", "Int", "Func", "Map", "Range", "Select", "Default", "Bool", "Byte", "Uint8",
@@ -1502,6 +1503,24 @@ func (g *G) Case() *core.Case {
 		}
 	}
 	c.Cfg = cfg
+	if g.P.Evolve {
+		first := strings.SplitN(cfg.Args[0], ":", 2)[0]
+		for _, it := range g.ifaces {
+			if it.Name != first || it.AliasOf != nil || it.DefOf != nil {
+				continue
+			}
+			saved := it.Methods
+			it.Methods = append(append([]Meth{}, saved...), Meth{Name: "EvolvedV2", Sig: &Sig{Params: []Param{{Name: "n", T: basic("int", true)}}, Results: []Param{{T: basic("error", true)}}}})
+			c.Alt = map[string]string{}
+			for _, f := range g.files {
+				if txt := g.renderSrcFile(f); txt != c.Files[dir+"/"+f.Name] {
+					c.Alt[dir+"/"+f.Name] = txt
+				}
+			}
+			it.Methods = saved
+			g.label("evolve:adds-method")
+		}
+	}
 	for l := range g.labels {
 		c.Labels = append(c.Labels, l)
 	}
